@@ -47,6 +47,8 @@ void probe(const char *name, uint64_t n) {
 void set_exact_fit(bool on) {
     g_exact_fit = on;
 }
+void set_soft_budget(bool) {
+}
 int current_task() {
     return g_task;
 }
